@@ -7,7 +7,7 @@ from common import *
 import sqlgen as G
 
 I16, I32, BOOL, STR = "i16", "i32", "b", "s"
-COLS = [("id", I32), ("a", I32), ("g", I32), ("s", I16), ("u", I16), ("c", STR)]
+COLS = [("id", I32), ("a", I32), ("g", I32), ("s", I16), ("u", I16), ("c", STR), ("z", I32)]   # z is NULL in every row
 SQLTY = {I16: "smallint", I32: "int", BOOL: "boolean", STR: "varchar"}
 POS = {c: i + 1 for i, (c, _) in enumerate(COLS)}
 TY = dict(COLS)
@@ -30,7 +30,7 @@ def table(rnd, n):
     rows = []
     for i in range(n):
         rows.append([i, rnd.choice(SMALL), None if g_null else rnd.choice(gp), None if s_null else rnd.choice(sp),
-                     rnd.choice(U_VALS), rnd.choice(cp)])
+                     rnd.choice(U_VALS), rnd.choice(cp), None])
     return rows
 
 
@@ -41,8 +41,16 @@ class Gen:
     def col(self, name):
         return ("col", name, TY[name])
 
+    def poison(self):
+        """NULL in every row, with a chosen raw value in the slot: z + K (the kernels compute on raw slots; the
+        result of an enclosing operator must not depend on it)"""
+        return ("ar", "+", I32, self.col("z"), ("k", self.r.choice([40000, 32768, -32769, 2147483647, -2147483647, 65536, 7]), I32))
+
     def int_leaf(self, want=None):
         r = self.r
+        k = r.random()
+        if want is None and k < 0.12:
+            return self.poison()
         k = r.random()
         if want == I16 or (want is None and k < 0.3):
             if r.random() < 0.8:
@@ -222,6 +230,23 @@ def cases(seed, n):
         exprs = [g.top() for _ in range(rnd.choice([1, 2, 3]))]
         q = "select x1.id as c0, " + ", ".join(f"{sql(e)} as c{k + 1}" for k, e in enumerate(exprs)) + " from t as x1"
         out.append({"rows": rows, "exprs": exprs, "sql": q})
+    return out + poison_sweep(rnd)
+
+
+def poison_sweep(rnd):
+    """Every fallible / branching kernel applied to a NULL whose raw slot holds a boundary value."""
+    out = []
+    A = ("col", "a", I32)
+    for kval in [40000, 32768, -32769, 2147483647, -2147483647, 65536, 7]:
+        p = ("ar", "+", I32, ("col", "z", I32), ("k", kval, I32))
+        wraps = [("cast", I16, p), ("cast", STR, p), ("cast", BOOL, p), ("neg", I32, p), ("isnull", p, False),
+                 ("cmp", "<", p, A), ("ar", "/", I32, A, p), ("ar", "/", I32, p, A), ("ar", "-", I32, A, p),
+                 ("cast", I16, ("neg", I32, p)), ("cast", STR, ("cast", I16, p)),
+                 ("ar", "+", I32, ("cast", I16, p), A)]
+        for w in wraps:
+            rows = table(rnd, 5)
+            q = f"select x1.id as c0, {sql(w)} as c1 from t as x1"
+            out.append({"rows": rows, "exprs": [w], "sql": q})
     return out
 
 
@@ -229,7 +254,7 @@ def run(cs, tag):
     runs = []
     for i, c in enumerate(cs):
         for eng in ("mem", "disk"):
-            steps = [{"sql": "create table t(id int, a int, g int, s smallint, u smallint, c varchar)"}]
+            steps = [{"sql": "create table t(id int, a int, g int, s smallint, u smallint, c varchar, z int)"}]
             rows = c["rows"]
             parts = [rows] if i % 3 else [rows[: len(rows) // 2], rows[len(rows) // 2:]]
             for part in parts:
